@@ -4,14 +4,14 @@
 export GOFLAGS=-mod=mod GOPROXY=off GOSUMDB=off GOTOOLCHAIN=local
 cd /verif/mcrt
 B=$(mktemp -d /var/tmp/racelitmus.XXXX)
-go build -race -gcflags='mcrt=-race=false' -gcflags='mcrt/explore=-race=false' -o $B/rl ./racelitmus || exit 2
+go build -race -gcflags='mcrt=-race=false' -gcflags='mcrt/explore=-race=false' -gcflags='mcrt/xatomic=-race=false' -gcflags='mcrt/xsync=-race=false' -o $B/rl ./racelitmus || exit 2
 rc=0
-for s in race-plain race-wrong-direction race-select-unchosen race-mutex-one-side race-mutex-third-thread ok-unbuffered ok-unbuffered-reverse ok-buffered ok-buffered-slot ok-close ok-waitgroup ok-mutex ok-context ok-go ok-nested-spawn; do
+for s in race-plain race-wrong-direction race-select-unchosen race-mutex-one-side race-mutex-third-thread ok-unbuffered ok-unbuffered-reverse ok-buffered ok-buffered-slot ok-close ok-waitgroup ok-mutex ok-context ok-go ok-nested-spawn ok-atomic-publish race-atomic-unrelated ok-cond-signal ok-pool-handoff; do
   out=$(GORACE="halt_on_error=0" $B/rl $s 2>&1)
   if echo "$out" | grep -q "DATA RACE"; then got=race; else got=ok; fi
   want=${s%%-*}
   if [ "$got" != "$want" ]; then echo "race litmus $s: want $want got $got"; rc=1; fi
 done
 rm -rf $B
-[ $rc = 0 ] && echo "race litmus ok (15 scenarios)"
+[ $rc = 0 ] && echo "race litmus ok (19 scenarios)"
 exit $rc
